@@ -16,8 +16,14 @@ What an iteration observes (`IterInput`) is everything the loop reads from outsi
   `self.streams.values_mut()` visits the table at that moment (a property of the hash map, not of the loop).
 
 The state is the key set of `self.streams` (one entry per address; insertion order is kept only to have a
-list) and whether the loop is still running. All three handlers are taken to be registered. A "dispatch"
-is the submission of the handler call to the handler pool (`thread_pool.execute`), which is FIFO (C08).
+list) and whether the loop is still running. A "dispatch" is the submission of the handler call to the
+handler pool (`thread_pool.execute`), which is FIFO (C08).
+
+The three handlers are `Option`s (`on_connect`, `on_message`, `on_disconnect`), fixed before the loop starts:
+`Handlers` says which of them are registered. For an unregistered handler the code does everything else the
+same and only skips the `thread_pool.execute(..)`: the model yields no dispatch effect and the same state
+change. `self.streams.remove(&addr)` drops the stream (its socket is closed): that is the effect `drop`, which
+does not depend on any handler.
 
 `self.streams.get_mut(&addr).unwrap()` panics when the address is not in the table; the model keeps that
 (`Effect.panic`, the loop is left). It cannot happen for the key lists the code produces (`no_panic`).
@@ -65,12 +71,21 @@ structure IterInput where
   outgoing : List Out := []
   deriving DecidableEq, Repr
 
+/-- Which of the optional handlers are registered (`self.on_connect` / `on_message` / `on_disconnect` is `Some`). -/
+structure Handlers where
+  connect : Bool := true
+  message : Bool := true
+  disconnect : Bool := true
+  deriving DecidableEq, Repr
+
 inductive Effect
   | dispatchConnect (a : Addr)
   | dispatchMessage (a : Addr) (m : Msg)
   | dispatchDisconnect (a : Addr)
   | sendTo (a : Addr) (bytes : Bytes)
   | ping (a : Addr)
+  /-- `self.streams.remove(&a)`: the entry leaves the table and the stream is dropped -/
+  | drop (a : Addr)
   | exit
   | panic
   deriving DecidableEq, Repr
@@ -91,29 +106,42 @@ def remove (st : List Addr) (a : Addr) : List Addr := st.filter (· != a)
 /-- `self.streams.insert(a, ..)`: a present key keeps its place (the old stream is replaced and dropped). -/
 def insert (st : List Addr) (a : Addr) : List Addr := if a ∈ st then st else st ++ [a]
 
-/-- The inner loop `'inner` on the stream of `a`: the dispatches, and whether the stream was removed.
-A list that ends without `None`/`Err` stands for a `None` at its end. -/
-def drain (a : Addr) : List Recv → List Effect × Bool
+/-- `if let Some(handler) = &message_handler { … execute … }`. -/
+def onMessage (h : Handlers) (a : Addr) (m : Msg) : List Effect :=
+  if h.message then [.dispatchMessage a m] else []
+
+/-- `if let Some(handler) = &disconnect_handler { … execute … }` followed by `self.streams.remove(&addr)`
+(the removal is outside the `if let`). -/
+def onGone (h : Handlers) (a : Addr) : List Effect :=
+  (if h.disconnect then [.dispatchDisconnect a] else []) ++ [.drop a]
+
+/-- `if let Some(handler) = &connect_handler { … execute … }` for one incoming stream. -/
+def onConnect (h : Handlers) (a : Addr) : List Effect :=
+  if h.connect then [.dispatchConnect a] else []
+
+/-- The inner loop `'inner` on the stream of `a`: the dispatches (and the removal), and whether the stream
+was removed. A list that ends without `None`/`Err` stands for a `None` at its end. -/
+def drain (h : Handlers) (a : Addr) : List Recv → List Effect × Bool
   | [] => ([], false)
-  | .msg m :: rs => let r := drain a rs; (.dispatchMessage a m :: r.1, r.2)
-  | .err :: _ => ([.dispatchDisconnect a], true)
+  | .msg m :: rs => let r := drain h a rs; (onMessage h a m ++ r.1, r.2)
+  | .err :: _ => (onGone h a, true)
   | .none :: _ => ([], false)
 
 /-- The body of `for addr in keys` for a stream that is in the table. -/
-def pollOne (willPing : Bool) (st : List Addr) (p : Poll) : List Addr × List Effect :=
-  let r := drain p.addr p.results
+def pollOne (h : Handlers) (willPing : Bool) (st : List Addr) (p : Poll) : List Addr × List Effect :=
+  let r := drain h p.addr p.results
   if r.2 then (remove st p.addr, r.1)
-  else if p.timedOut then (remove st p.addr, r.1 ++ [.dispatchDisconnect p.addr])
+  else if p.timedOut then (remove st p.addr, r.1 ++ onGone h p.addr)
   else if willPing then (st, r.1 ++ [.ping p.addr])
   else (st, r.1)
 
 /-- `for addr in keys { … }`; `none` = `get_mut(&addr).unwrap()` panicked. -/
-def pollAll (willPing : Bool) : List Addr → List Poll → Option (List Addr) × List Effect
+def pollAll (h : Handlers) (willPing : Bool) : List Addr → List Poll → Option (List Addr) × List Effect
   | st, [] => (some st, [])
   | st, p :: ps =>
     if p.addr ∈ st then
-      let r := pollOne willPing st p
-      let r' := pollAll willPing r.1 ps
+      let r := pollOne h willPing st p
+      let r' := pollAll h willPing r.1 ps
       (r'.1, r.2 ++ r'.2)
     else (none, [.panic])
 
@@ -136,24 +164,24 @@ def deliver (st : List Addr) : Out → List Effect
 /-- `for message in self.outgoing_messages.try_iter() { … }`. -/
 def flush (st : List Addr) (outgoing : List Out) : List Effect := outgoing.flatMap (deliver st)
 
-/-- One iteration of `loop { … }`. -/
-def stepLoop (s : AppState) (i : IterInput) : AppState × List Effect :=
+/-- One iteration of `loop { … }` of an app with the handlers `h`. -/
+def stepLoop (h : Handlers) (s : AppState) (i : IterInput) : AppState × List Effect :=
   if i.shutdown then ({ s with phase := .exited }, [.exit])
   else
-    match pollAll i.willPing s.streams i.polls with
+    match pollAll h i.willPing s.streams i.polls with
     | (none, e) => ({ s with phase := .panicked }, e)
     | (some st, e) =>
       let st' := admitAll st i.incoming
       ({ streams := st', phase := .running },
-       e ++ i.incoming.map .dispatchConnect ++ flush st' i.outgoing)
+       e ++ i.incoming.flatMap (onConnect h) ++ flush st' i.outgoing)
 
 /-- `run`: iterations as long as the loop is running. -/
-def runLoop : AppState → List IterInput → AppState × List Effect
+def runLoop (h : Handlers) : AppState → List IterInput → AppState × List Effect
   | s, [] => (s, [])
   | s, i :: is =>
     if s.phase = .running then
-      let r := stepLoop s i
-      let r' := runLoop r.1 is
+      let r := stepLoop h s i
+      let r' := runLoop h r.1 is
       (r'.1, r.2 ++ r'.2)
     else (s, [])
 
@@ -174,9 +202,9 @@ def InputsOk (s : AppState) (i : IterInput) : Bool :=
    (i.polls.all fun p => wellFormedResults p.results))
 
 /-- `InputsOk` along a run. -/
-def RunOk : AppState → List IterInput → Bool
+def RunOk (h : Handlers) : AppState → List IterInput → Bool
   | _, [] => true
-  | s, i :: is => s.phase != .running || (InputsOk s i && RunOk (stepLoop s i).1 is)
+  | s, i :: is => s.phase != .running || (InputsOk s i && RunOk h (stepLoop h s i).1 is)
 
 /-- No address is used twice in one run. -/
 def DistinctPeers (s : AppState) (is : List IterInput) : Prop :=
